@@ -136,6 +136,27 @@ def run(chk):
         if chk.ob('R15.1', "the even-spacing guess of the lookup was extracted", 'mid' in guess, b['span'], 'guess-extracted'):
             RAx = re.compile(r'^A\[.*\]$')
             judge('lookup guess (before truncation)', guess['mid'], [(RAx, (1, 0)), ('q', (1, 0)), ('n', (0, 0))], (0, 0), b['span'], axis_pats=(RAx,), linear=False)
+        # every comparison of the lookup is an order comparison of the query with an axis value (or index arithmetic): such decisions are invariant under any increasing
+        # change of units; a comparison of *computed* axis quantities against a constant (`(A[1]-A[0]) - step < 1e-9`, round 8) is not
+        import itertools
+        bad_cmp = {}
+        nruns = 0
+        for dec in itertools.product([False, True], repeat=5):
+            m2 = LookupModel(list(dec))
+            try:
+                Interp(lib, m2).call_def(b['def'], [Ref(ValPlace(Obj('vec'))), Num(A('q'))])
+                nruns += 1
+            except Unsupported as ex:
+                if str(ex).startswith('comparison '):
+                    bad_cmp.setdefault(str(getattr(ex, 'where', '')), str(ex))
+            except Exception:
+                nruns += 1          # ran out of decisions / loop bound: the comparisons met so far were all of the admitted kinds
+        chk.rule('R15.6', "the lookup touches axis values and the query only through order comparisons `q <=> A[k]` and index arithmetic (decisions invariant under every increasing "
+                          "change of units); no comparison involves an arithmetic combination of axis values or a numeric constant")
+        for wh, msg in sorted(bad_cmp.items()):
+            chk.ob('R15.6', "lookup comparison at %s is an order comparison of the query with an axis value: %s" % (wh, msg[:300]), False, wh, 'lookup-cmp-' + msg[:80])
+        chk.ob('R15.6', "the lookup's decision paths were walked (%d of 32 decision prefixes ended without an inadmissible comparison)" % nruns, nruns + len(bad_cmp) >= 1,
+               b['span'], 'lookup-paths-walked')
     # ---- spline evaluation, coefficients
     WS = [(RX, (1, 0)), ('q', (1, 0)), (RY, (0, 1)), (RA, (0, 1)), (RK, (-1, 1)), (RK2, (0, 0)), ('v_l', None), ('v_r', None)]
     o = run_spline(lib, 'Yes', 'inside')
@@ -247,6 +268,11 @@ def run(chk):
     for nm, runner in (('Linear', lambda: run_linear(lib, False, 'inside')), ('CubicSpline', lambda: run_spline(lib, 'No', 'inside')),
                        ('CubicSpline periodic', lambda: run_spline(lib, 'Periodic', 'above'))):
         pass
+    # ---- R15.5 the solver between the typed rows and the typed coefficients
+    chk.rule('R15.5', "the tridiagonal solver that turns the typed rows into the slopes is the comparison-free Thomas elimination: each step is `row j - (low[j]/mid'[j-1]) * row j-1` "
+                      "and `k[j] = (rhs'[j] - up[j] k[j+1]) / mid'[j]` - rational, homogeneous of degree 0 in the matrix and 1 in the right-hand side, with no constant and no "
+                      "comparison (a pivot clamped to an absolute 1e-9 carries a hidden unit: round 8)")
+    S.check_thomas(chk, lib, 'R15.5')
     chk.floor('R15.4', 'comparisons typed', ncmp, 8)
     chk.note('expressions_typed', n)
     chk.floor('R15.1', 'expressions typed', n, 120)
